@@ -213,6 +213,7 @@ impl TxnSession {
     pub open spec fn txns(&self) -> Map<TransactionId, ResourceTransaction> { self.txn_manager.txns@ }
 
 //@@ fn file=fe2o3-amqp/src/transaction/session.rs impl=`~HandleDeclareforTxnSession<S>` name=allocate_transaction_id
+//@@ attr #[verifier::loop_isolation(false)]
 //@@ shape loops=while
 //@@ attr #[verifier::exec_allows_no_decreases_clause]
 //@@ subst `TransactionId::from(Uuid::new_v4().into_bytes())` => `fresh_txn_id()` rule=R16
@@ -239,6 +240,7 @@ impl TxnSession {
 //@@ end
 
 //@@ fn file=fe2o3-amqp/src/transaction/session.rs impl=`~HandleDischargeforTxnSession<S>` name=commit_transaction
+//@@ attr #[verifier::loop_isolation(false)]
 //@@ shape loops=for,for;stmt-1=Ok (
 //@@ ret Result<Result<Accepted, TransactionError>, SessionInnerError>
 //@@ subst `transfer.state = txn_state.outcome.map(Into::into);` => `transfer.state = txn_state.outcome.map(|o: Outcome| -> (d: DeliveryState) ensures d == outcome_to_state(o) { outcome_into_state(o) });` rule=R17
